@@ -152,7 +152,13 @@ def define_dense():
             "int\tmain(void)\n{\n\treturn (GOOD); \n}\n")
     h2 = header42.header_text("defs.h") + "\n"
     body2 = "#ifndef DEFS_H\n# define DEFS_H\n\n# define lower 1\n# define TWO 1 + 1\n# define OK_VAL 3\n\n#endif\n"
-    return [("empty.c", ""), ("empty.h", ""), ("nl.c", "\n"), ("defs.c", h + body), ("defs.h", h2 + body2), ("file.c", header42.header_text("file.c") + "\n" + body),
+    func = "int\tmain(void)\n{\n\treturn (0);\n}\n"
+    edges = [("lead.c", "\n" + header42.header_text("lead.c") + "\n" + func), ("lead.c", "\n\n \n" + func),
+             ("lead.c", " \t" + header42.header_text("lead.c") + "\n" + func), ("lead.h", "\n" + h2 + body2.replace("DEFS_H", "LEAD_H")),
+             ("trail.c", header42.header_text("trail.c") + "\n" + func + "\n\n"), ("trail.c", header42.header_text("trail.c") + "\n" + func + " \t "),
+             ("trail.c", header42.header_text("trail.c") + "\n" + func + "\n \n"), ("cr.c", header42.header_text("cr.c") + "\n" + func.replace("\n", "\r\n")),
+             ("blank.c", " "), ("blank.h", "\t\n")]
+    return edges + [("empty.c", ""), ("empty.h", ""), ("nl.c", "\n"), ("defs.c", h + body), ("defs.h", h2 + body2), ("file.c", header42.header_text("file.c") + "\n" + body),
             ("file.h", header42.header_text("file.h") + "\n" + body2.replace("DEFS_H", "FILE_H"))]
 
 
@@ -199,7 +205,7 @@ def run(tier, seed):
     if verdicts.get("Error", 0) == 0 or verdicts.get("OK", 0) == 0:
         raise HarnessError(f"file set is vacuous: {verdicts}")
     st.sample({"option_vector": ["--no-colors", "-f", "json", "-o", "-dd", "-R", "CheckDefine"], "file": files[0][0]})
-    st.sample({"file": "defs.c", "text_tail": define_dense()[3][1].split("\n")[12:]})
+    st.sample({"file": "defs.c", "text_tail": [t for f, t in define_dense() if f == "defs.c"][0].split("\n")[12:]})
     return CheckResult(
         st, failures,
         rule="all 144 option vectors (colours x format{default,humanized,json} x -o x debug x -R) x every file of the "
